@@ -24,6 +24,7 @@ VERIF = os.path.dirname(os.path.dirname(os.path.abspath(__file__)))
 REPLAY_DIR = os.path.join(VERIF, "replays")
 
 CHECKS = {}      # name -> Check
+JOURNAL = os.environ.get("VERIF_JOURNAL")
 
 
 class Check:
@@ -101,6 +102,11 @@ def run_checks(prop, tier, seed, focus=None, budget_s=None, only=None):
         samples = []
         for inp in chk.gen("thorough" if deep else tier, rng):
             n += 1
+            if JOURNAL:
+                # crash journal: if the interpreter dies inside the code under test (segfault in a compiled kernel),
+                # the parent finds the input that was being run
+                with open(JOURNAL, "w") as jf:
+                    json.dump(dict(check=name, input=inp), jf, default=str)
             k = input_key(inp)
             if (name, k) not in seen:
                 seen.add((name, k))
